@@ -36,7 +36,7 @@ pub fn c03_strategy() -> impl Strategy<Value = C03Case> {
         5 => (cycle_strategy(), delay_strategy(), c03_repeat_strategy(), any::<bool>()).prop_map(|(cycle, delay, repeat, reverse)| Timing { cycle, delay, repeat, reverse }),
         // very short cycles (below f32::EPSILON seconds, down to 1e-30): "cycle duration > 0" is all the
         // statement asks for
-        1 => (prop::sample::select(vec![2.0f32.powi(-25), 2.0f32.powi(-30), 5.0e-8, 6.0e-8, 1.0e-10, 1.0e-20, 1.0e-30]), prop::sample::select(vec![0.0f32, 0.0, 2.0f32.powi(-25), 1.0e-9, 1.0e-20]), c03_repeat_strategy(), any::<bool>())
+        1 => (prop::sample::select(vec![2.0f32.powi(-25), 2.0f32.powi(-30), 5.0e-8, 6.0e-8, 1.0e-10, 1.0e-20, 1.0e-30, f32::MIN_POSITIVE, f32::from_bits(1), f32::from_bits(2), 1.0e-42]), prop::sample::select(vec![0.0f32, 0.0, 2.0f32.powi(-25), 1.0e-9, 1.0e-20]), c03_repeat_strategy(), any::<bool>())
             .prop_map(|(cycle, delay, repeat, reverse)| Timing { cycle, delay, repeat, reverse }),
     ];
     (timing, prop::collection::vec(timespec_strategy(), 16)).prop_map(|(timing, times)| C03Case { timing, times })
